@@ -680,21 +680,51 @@ def pseudo_table(ctx) -> dict:
     return ctx.get('pseudo_table', build)
 
 
+def selector_constants(ctx) -> dict:
+    """Selector lists compiled while css_parser is imported: name -> {'text', 'flags', 'parser_flags', 'custom'}.
+
+    Every module-level assignment of css_parser is interpreted with a recording stand-in for the CSSParser class, so the
+    answer does not depend on how the constant is spelled (a direct `CSSParser(text).process_selectors(flags=...)`, a helper
+    function, a table of definitions)."""
+    from ..interp import Interp
+
+    def build():
+        pmod = ctx.src.mod('css_parser')
+        out = {}
+        for st in pmod.tree.body:
+            if isinstance(st, ast.Assign) and len(st.targets) == 1 and isinstance(st.targets[0], ast.Name):
+                name, value = st.targets[0].id, st.value
+            elif isinstance(st, ast.AnnAssign) and isinstance(st.target, ast.Name) and st.value is not None:
+                name, value = st.target.id, st.value
+            else:
+                continue
+            if not any(isinstance(c, ast.Call) for c in ast.walk(value)) or 're.compile' in ast.unparse(value)[:12]:
+                continue
+            rec = {}
+
+            def parser_ctor(selector=None, custom=None, flags=0, _rec=rec, _name=name):
+                o = Obj(_name='parser', pattern=selector, custom=custom, flags=flags)
+
+                def ps(index=0, flags=0):
+                    _rec.update(text=selector, flags=flags, index=index, parser_flags=o.get('flags'), custom=o.get('custom'))
+                    return Obj(_cls='css_types.SelectorList', _name=_name, __const__=_name, selectors=(), is_not=False, is_html=False,
+                               __iter__=[], __len__=0)
+                o.set('process_selectors', ps)
+                return o
+            it = Interp(ctx, 'css_parser', None, {}, {'css_parser.CSSParser': parser_ctor}, shared={'steps': 0, 'no_const_shortcut': True})
+            try:
+                v = it.ev(value)
+            except (Unsupported, Raised):
+                continue
+            if rec and isinstance(v, Obj) and v.has('__const__') and isinstance(rec.get('text'), str):
+                out[name] = rec
+        return out
+    return ctx.get('selector_constants', build)
+
+
 def const_flags(ctx) -> dict:
     """CSS_* selector constants of css_parser: name -> flags they were compiled with (0 if none)."""
-    src, inv = ctx.src, ctx.consts
-    pmod = src.mod('css_parser')
-    from ..srcmodel import call_name
-    out = {}
-    for st in pmod.tree.body:
-        if isinstance(st, ast.Assign) and isinstance(st.targets[0], ast.Name) and st.targets[0].id.startswith('CSS_'):
-            for c in ast.walk(st.value):
-                if isinstance(c, ast.Call) and call_name(c).endswith('process_selectors'):
-                    out[st.targets[0].id] = 0
-                    for k in c.keywords:
-                        if k.arg == 'flags':
-                            out[st.targets[0].id] = inv.folder.try_ev('css_parser', k.value, default=0)
-    return out
+    return {k: (v['flags'] if isinstance(v['flags'], int) else 0) for k, v in selector_constants(ctx).items()}
 
 
 # ---- "same element type" of the -of-type pseudo-classes ------------------------------------------------------------------
@@ -2158,3 +2188,165 @@ def empty_table(ctx, rule):
                        f'match_empty on an element whose children are "{what}" is {got}, expected {exp}: :empty holds exactly when there '
                        f'is no element child and no text child with a character outside CSS white space; comments, CDATA sections, '
                        f'processing instructions, declarations and doctypes are never text')
+
+
+
+def alternatives_table(ctx, rule):
+    """match_selectors over every list of one to three alternatives, each of which passes, fails or is un-matchable (SelectorNull),
+    plain and negated: the answer is (some alternative passes) xor is_not."""
+    import itertools
+    inv = ctx.consts
+    mod, fn = ctx.src.func('css_match.CSSMatch.match_selectors')
+    bad = None
+    n_cases = 0
+    for n in (1, 2, 3):
+        for outcome in itertools.product(('pass', 'fail', 'null'), repeat=n):
+            for is_not in (False, True):
+                alts = []
+                for i, o in enumerate(outcome):
+                    if o == 'null':
+                        alts.append(Obj(_cls='css_types.SelectorNull', _name='Null'))
+                    else:
+                        alts.append(Obj(_cls='css_types.Selector', _name=f'S{i}', tag=Obj(_name='tag', verdict=(o == 'pass')), ids=(), classes=(),
+                                        attributes=(), nth=(), selectors=(), relation=Obj(_name='rel', __len__=0, __iter__=[], __bool__=False),
+                                        rel_type=None, contains=(), lang=(), flags=0))
+                lst = Obj(_cls='css_types.SelectorList', _name='list', selectors=tuple(alts), is_not=is_not, is_html=False,
+                          __iter__=alts, __len__=len(alts))
+                selfo = Obj(_cls='css_match.CSSMatch', _name='self', namespaces={}, iframe_restrict=False, is_html=True, is_xml=False,
+                            scope=None, root=None, tag=None, has_html_namespace=False)
+                stubs = {f'self.{c}': (lambda *a, **k: True) for c in CHECKS}
+                stubs['self.match_tag'] = lambda el, tag: tag.get('verdict')
+                try:
+                    got = bool(call_function(ctx, 'css_match.CSSMatch.match_selectors', [Obj(_name='el'), lst], {}, stubs, selfo))
+                except Raised as e:
+                    got = f'raises {e.exc_name}'
+                except Unsupported as e:
+                    raise AnalysisError(f'match_selectors: outside the evaluable fragment: {e}')
+                exp = ('pass' in outcome) != is_not
+                n_cases += 1
+                rule.instance({'alternatives': list(outcome), 'is_not': is_not, 'result': got, 'expected': exp},
+                              key=f'alts|{",".join(outcome)}|{is_not}', sample_cap=12)
+                if got != exp and bad is None:
+                    bad = (outcome, is_not, got, exp)
+    rule.obligation(bad is None)
+    if bad is not None:
+        outcome, is_not, got, exp = bad
+        rule.violation('css_match.CSSMatch.match_selectors alternatives table', mod.where(fn),
+                       f'match_selectors on the list of alternatives ({", ".join(outcome)}){" inside :not()" if is_not else ""} answers {got}, '
+                       f'expected {exp}: a selector list matches when some alternative matches (un-matchable alternatives such as '
+                       f':focus never do), and :not() negates exactly that')
+
+
+
+def relations_table(ctx, rule):
+    """match_relations for every combinator the matcher knows, on every element of a small tree (text, comments and a doctype
+    between the elements): the nodes handed to match_selectors are exactly the elements the combinator designates - ancestors
+    / parent (never the document object), preceding siblings / the preceding element sibling, and for the forward forms used
+    by :has() descendants / children / following siblings / the following element sibling - and the answer is "some
+    designated element matches"."""
+    inv = ctx.consts
+    fnq = 'css_match.CSSMatch.match_relations'
+    mod, fn = ctx.src.func(fnq)
+    rel = {n: inv.folder.lookup('css_match', n) for n in inv.folder.env_nodes['css_match'] if n.startswith('REL_')}
+    rel = {k: v for k, v in rel.items() if isinstance(v, str)}
+    doc, order, L = build_tree([('#doctype', 'html'), ('html', {'_label': 'root'}, [
+        ('#comment', 'c'), ('head', {'_label': 'head'}, []), ' ',
+        ('body', {'_label': 'body'}, ['t', ('p', {'_label': 'p1'}, [('b', {'_label': 'b'}, ['x'])]), ('#comment', 'c'), 'u',
+                                      ('p', {'_label': 'p2'}, []), ('#cdata', 'd'), ('ul', {'_label': 'ul'}, [('li', {'_label': 'li'}, [('i', {'_label': 'i'}, [])])]),
+                                      'tail'])])])
+    els = [n for n in order if not isinstance(n, TextNode)]
+    # ... and a detached fragment: its top node is an element (extract()ed, or built with new_tag), there is no document object
+    doc2, order2, L2 = build_tree([('ul', {'_label': 'top'}, [('li', {'_label': 'item'}, ['x', ('em', {'_label': 'em'}, [])]), ('li', {'_label': 'item2'}, [])])])
+    L2['top'].set('parent', None)
+    L2['top'].set('previous_element', None)
+    frag = [n for n in order2 if not isinstance(n, TextNode)]
+    scope_of = {id(n): L['root'] for n in els}
+    scope_of.update({id(n): L2['top'] for n in frag})
+    els = els + frag
+
+    def ancestors(n):
+        out = []
+        p = n.get('parent')
+        while p is not None and p is not doc and p is not doc2:
+            out.append(p)
+            p = p.get('parent')
+        return out
+
+    def sibs(n, fwd):
+        if n.get('parent') is None:
+            return []
+        cs = [c for c in n.get('parent').get('contents')]
+        i = [k for k, c in enumerate(cs) if c is n][0]
+        seq = cs[i + 1:] if fwd else cs[:i][::-1]
+        return [c for c in seq if not isinstance(c, TextNode)]
+
+    def desc(n):
+        out = []
+        for c in n.get('contents'):
+            if not isinstance(c, TextNode):
+                out.append(c)
+                out += desc(c)
+        return out
+
+    def designated(r, n):
+        fwd = r.startswith(':')
+        c = r[1:] if fwd else r
+        if c == ' ':
+            return desc(n) if fwd else ancestors(n)
+        if c == '>':
+            return [k for k in n.get('contents') if not isinstance(k, TextNode)] if fwd else ancestors(n)[:1]
+        if c == '~':
+            return sibs(n, fwd)
+        if c == '+':
+            return sibs(n, fwd)[:1]
+        raise AnalysisError(f'combinator constant {r!r} of css_match is not one of the eight known forms')
+    bad = None
+    n_rows = 0
+    for cname, r in sorted(rel.items()):
+        for el in els:
+            want = designated(r, el)
+            for target in [None] + want:
+                tested = []
+
+                def ms(node, relation, *a_, **k_):
+                    tested.append(node)
+                    return node is target
+                r0 = Obj(_cls='css_types.Selector', _name='R0', rel_type=r)
+                relation = Obj(_cls='css_types.SelectorList', _name='relation', selectors=(r0,), is_not=False, is_html=False, __iter__=[r0], __len__=1)
+                me = real_matcher(ctx, scope_of[id(el)])
+                try:
+                    got = bool(call_function(ctx, fnq, [el, relation], {}, {'self.match_selectors': ms, 'util.lower': strict_lower,
+                                                                            'css_match.CSSMatch.supports_namespaces': lambda: False}, me))
+                except Raised as e:
+                    got = f'raises {e.exc_name}'
+                except Unsupported as e:
+                    raise AnalysisError(f'match_relations({cname}): outside the evaluable fragment: {e}')
+                n_rows += 1
+                lab = (lambda n: 'document' if n is doc or n is doc2 else (repr(str(n))[:12] if isinstance(n, TextNode) else object.__getattribute__(n, '_name').strip('<>')))
+                problem = None
+                if got not in (True, False):
+                    problem = f'{got}'
+                elif target is None:
+                    extra = [n for n in tested if not any(n is w for w in want)]
+                    missing = [w for w in want if not any(w is n for n in tested)]
+                    if extra:
+                        problem = f'hands {", ".join(map(str, map(lab, extra)))} to match_selectors, which the combinator does not designate'
+                    elif missing:
+                        problem = f'never tests {", ".join(map(str, map(lab, missing)))}'
+                    elif got:
+                        problem = 'answers True although no designated element matches'
+                elif not got:
+                    problem = f'answers False although the designated element {lab(target)} matches'
+                if target is None:
+                    rule.instance({'combinator': r, 'element': str(lab(el)), 'designated': [str(lab(w)) for w in want],
+                                   'tested': [str(lab(t)) for t in tested], 'ok': problem is None}, key=f'rel|{r}|{lab(el)}', sample_cap=16)
+                if problem and bad is None:
+                    bad = (cname, r, lab(el), problem)
+    rule.obligation(bad is None)
+    rule.instance({'rows': n_rows}, key='relations-rows')
+    if bad is not None:
+        cname, r, el, problem = bad
+        rule.violation(f'css_match.CSSMatch.match_relations {cname} table', mod.where(fn),
+                       f'match_relations with combinator {r!r} ({cname}) on element <{el}> {problem}: a combinator relates an element '
+                       f'only to other ELEMENTS in the stated position (the BeautifulSoup document object, text and comments are not '
+                       f'elements; "*  > html" must not match)')
